@@ -4,6 +4,11 @@
 From Coq Require Import List String Ascii ZArith NArith Bool Lia.
 From LC Require Import Core.Residue Core.MiniPy Model.Normalise Gen.GMiniPy.
 Import ListNotations.
+
+Local Notation exec := (MiniPy.exec noprim 0).
+Local Notation exec_list := (MiniPy.exec_list noprim 0).
+Local Notation run_loop := (MiniPy.run_loop noprim 0).
+Local Notation eval := (MiniPy.eval noprim).
 Local Open Scope Z_scope.
 
 Ltac all_ascii c := destruct c as [[] [] [] [] [] [] [] []].
